@@ -19,6 +19,7 @@ pub enum Val {
     S(SpecId),
     OB(Option<bool>),
     Str(String),
+    Hex(Vec<u8>),
 }
 
 #[derive(Clone, Copy, Debug)]
@@ -31,6 +32,7 @@ pub enum Kind {
     S,
     OB,
     Str,
+    Hex,
 }
 
 impl Val {
@@ -83,6 +85,13 @@ impl Val {
         }
     }
 
+    pub fn bytes(&self) -> &[u8] {
+        match self {
+            Val::Hex(v) => v,
+            _ => panic!("arg kind: bytes expected, got {:?}", self),
+        }
+    }
+
     pub fn render(&self) -> String {
         match self {
             Val::U64(v) => v.to_string(),
@@ -94,6 +103,7 @@ impl Val {
             Val::OB(None) => "None".to_string(),
             Val::OB(Some(b)) => format!("Some({})", b),
             Val::Str(s) => s.clone(),
+            Val::Hex(b) => hex_of(b),
         }
     }
 
@@ -117,8 +127,26 @@ impl Val {
                 _ => return Err(e(())),
             }),
             Kind::Str => Val::Str(s.to_string()),
+            Kind::Hex => Val::Hex(parse_hex(s).ok_or_else(|| e(()))?),
         })
     }
+}
+
+pub fn hex_of(b: &[u8]) -> String {
+    let mut s = String::with_capacity(2 + 2 * b.len());
+    s.push_str("0x");
+    for x in b {
+        let _ = write!(s, "{:02x}", x);
+    }
+    s
+}
+
+pub fn parse_hex(s: &str) -> Option<Vec<u8>> {
+    let h = s.strip_prefix("0x").unwrap_or(s);
+    if h.len() % 2 != 0 {
+        return None;
+    }
+    (0..h.len() / 2).map(|i| u8::from_str_radix(&h[2 * i..2 * i + 2], 16).ok()).collect()
 }
 
 fn parse_u64(s: &str) -> Option<u64> {
@@ -279,6 +307,30 @@ pub struct Case {
     pub expected: Box<dyn Fn(&[Val]) -> Option<String>>,
     /// the REAL function of the repository, result rendered the same way as the oracle renders its value
     pub observed: Box<dyn Fn(&[Val]) -> String>,
+}
+
+/// convenience constructor used by the case modules
+#[allow(clippy::too_many_arguments)]
+pub fn mk_case(
+    id: &str,
+    names: &[&str],
+    finding: bool,
+    schema: Vec<(&'static str, Kind)>,
+    boundary: impl Fn() -> Vec<Args> + 'static,
+    random: impl Fn(&mut Rng) -> Args + 'static,
+    expected: impl Fn(&[Val]) -> Option<String> + 'static,
+    observed: impl Fn(&[Val]) -> String + 'static,
+) -> Case {
+    Case {
+        id: id.to_string(),
+        names: names.iter().map(|s| s.to_string()).collect(),
+        finding,
+        schema,
+        boundary: Box::new(boundary),
+        random: Box::new(random),
+        expected: Box::new(expected),
+        observed: Box::new(observed),
+    }
 }
 
 pub struct Outcome {
